@@ -30,7 +30,7 @@ claim("C05", "stateful property-based testing (proptest histories) against a bal
       "Random histories over both token kinds; every balance, custody and supply compared with a ledger model after every step; successful outbound transfers' announcements compared with the harness's own ABI encoding and Keccak; refused calls must leave the ledger snapshot identical.",
       "closed address pool (supply = sum of balances over it); the configuration of known finding C11 is excluded by construction; all authorisations mocked (C07 studies them)", "DESIGN.md §3 C05")
 claim("C06", "exhaustive entry-point x principal matrix + property-based role-transfer histories, by record-and-substitute authorisation",
-      "All 27 administrative entry points x 7 principal classes are enumerated in every run; proptest adds role-transfer histories. The authorisation trees a call needs are recorded in a twin world and replayed in a fresh one with exactly one principal signing; success iff that principal is the current holder per a role model; refusals must leave the ledger identical.",
+      "All 28 administrative entry points x 7 principal classes are enumerated in every run; proptest adds role-transfer histories. The authorisation trees a call needs are recorded in a twin world and replayed in a fresh one with exactly one principal signing; success iff that principal is the current holder per a role model; refusals must leave the ledger identical.",
       "world construction is deterministic (same addresses in twin and replay worlds); host authorisation framework trusted; accept-all account contracts stand for 'this address signed'", "DESIGN.md §3 C06")
 claim("C11", "stateful property-based testing (proptest histories) with independent id/address derivation and a write-once registry model",
       "Random histories of local deployments, canonical registrations and remote deploy messages with collisions over two ITS instances; ids and addresses compared with own Keccak/XDR/sha256 derivations; registry write-once; post-deployment role, balance and metadata checks and a behavioural inbound-transfer probe on every deployed token.",
@@ -39,7 +39,7 @@ claim("C18", "property-based testing (proptest) with independent id derivation a
       "Random token kinds/metadata (incl. a harness token with unrepresentable metadata), callers, destinations, gas amounts and authorisation; success predicted from the statement's conditions; announced payload, gas event and service event compared field by field with independently computed values; only the gas payment may move funds; refusals leave the ledger identical.",
       "authorisation is all-or-nothing here (C07 studies who must authorise)", "DESIGN.md §3 C18")
 claim("C07", "exhaustive entry-point x authoriser matrix + property-based state variation, by record-and-substitute authorisation",
-      "All 17 entry points that act for a named address x 8 authoriser classes x 2 allowance states are enumerated in every run; the (nested) authorisation trees are recorded in a twin world and replayed with exactly one principal signing, or the call is made by a probe contract with no entries. Success iff the named address authorised or is the calling contract; refusals must leave the ledger identical.",
+      "All 17 entry points that act for a named address x 8 authoriser classes x allowance / ownership states are enumerated in every run; the (nested) authorisation trees are recorded in a twin world and replayed with exactly one principal signing, or the call is made by a probe contract with no entries. Success iff the named address authorised or is the calling contract; refusals must leave the ledger identical.",
       "deterministic world construction; host authorisation framework trusted; contract-caller class restricted to entry points whose only authorisation is at the entry point itself", "DESIGN.md §3 C07")
 claim("C14", "stateful property-based testing (proptest histories) against a running-balance model",
       "Random histories of pay/add/collect/refund over three tokens (two asset contracts and the current-source token) with boundary amounts and four authoriser classes for payouts; service, spender and receiver balances compared with the running-balance equation after every step; one event per movement; refusals leave the ledger identical.",
